@@ -402,7 +402,7 @@ impl Check for C02 {
         "bmc_runs"
     }
     fn rule(&self) -> String {
-        "G2 systems (<= 8 state bits incl. array states, <= 4 input bits, free and initialised states, init chains over earlier states, const states, 0-2 constraints, 1-3 bads incl. constant and duplicate ones (one system in ten has 15-43 bad states, the generated ones last), sub-terms shared between init/next/bad/constraint roots) x bound k in {1,2,3,5, d-1, d, d+1} (d = reference depth of the first bad state) x 4 solver personas (refsolver under the names bitwuzla / yices-smt2 / z3 / cvc5: check-sat-assuming vs push/pop emulation, const-array support) x {bads jointly, individually} x {as is, after simplify_expressions}; patronus::mc::bmc talks the real text protocol to the strict reference solver; the verdict is compared with explicit-state reachability R4 and across configurations. mode corpus: every shipped btor2 design with a bad state (quick: files <= 6 kB, bound 12; thorough: <= 100 kB, bound 30) is checked by the library in two configurations (random profile, jointly as-is / individually simplified) and by the shipped tools/mc binary on the file itself, under a deterministic backend effort bound; all must agree on the verdict and on the step of the first failure, and none may contradict a bad state that constrained random simulation in the reference simulator R3 reached (one-sided independent oracle). distinct_nontrivial = distinct generated systems with at least 2 reachable states + shipped designs judged.".into()
+        "G2 systems (<= 8 state bits incl. array states, <= 4 input bits, free and initialised states, init chains over earlier states, const states, 0-2 constraints, 1-3 bads incl. constant and duplicate ones (one system in five has 15-43 bad states, the generated ones last), sub-terms shared between init/next/bad/constraint roots) x bound k in {1,2,3,5, d-1, d, d+1} (d = reference depth of the first bad state) x 4 solver personas (refsolver under the names bitwuzla / yices-smt2 / z3 / cvc5: check-sat-assuming vs push/pop emulation, const-array support) x {bads jointly, individually} x {as is, after simplify_expressions}; patronus::mc::bmc talks the real text protocol to the strict reference solver; the verdict is compared with explicit-state reachability R4 and across configurations. mode corpus: every shipped btor2 design with a bad state (quick: files <= 6 kB, bound 12; thorough: <= 100 kB, bound 30) is checked by the library in two configurations (random profile, jointly as-is / individually simplified) and by the shipped tools/mc binary on the file itself, under a deterministic backend effort bound; all must agree on the verdict and on the step of the first failure, and none may contradict a bad state that constrained random simulation in the reference simulator R3 reached (one-sided independent oracle). distinct_nontrivial = distinct generated systems with at least 2 reachable states + shipped designs judged.".into()
     }
     fn assumptions(&self) -> Vec<String> {
         vec![
@@ -476,7 +476,7 @@ impl Check for C02 {
         // every system costs 20 solver sessions: prefer feature-rich ones (two thirds of the cases)
         let gs = if rng.chance(2, 3) { crate::wl::sys::gen_rich_system(&mut rng, &mut ctx, &cfg, 4) } else { gen_system(&mut rng, &mut ctx, &cfg, "") };
         let mut sys = gs.sys;
-        if rng.chance(1, 10) {
+        if rng.chance(1, 5) {
             // designs with dozens of properties: the generated bad states come last, behind 14-40 that never hold
             // or that repeat the first one
             let real = std::mem::take(&mut sys.bad_states);
